@@ -746,5 +746,10 @@ m("c20-beginblock-once-per-process", "C20", "x/evm/keeper/abci.go",
   "\tk.WithChainID(ctx)\n", "\tif k.eip155ChainID != nil {\n\t\treturn\n\t}\n\tk.WithChainID(ctx)\n\tparams := k.GetParams(ctx)\n\tif len(params.ActivePrecompiles) > 64 {\n\t\tparams.ActivePrecompiles = params.ActivePrecompiles[:64]\n\t\t_ = k.SetParams(ctx, params)\n\t}\n",
   "branch-on-late-bound-field", "a clean-up that runs only in the first block a process sees")
 
+m("c02-delegate-mirrors-message-amount", "C02", "precompiles/staking/tx.go",
+  "\t\tbalanceAfter := p.stakingKeeper.GetBondDenomBalance(ctx, contract.CallerAddress.Bytes())\n\t\tswitch diff := balanceAfter.Amount.Sub(balanceBefore.Amount); {\n\t\tcase diff.IsNegative():\n\t\t\tstateDB.(*statedb.StateDB).SubBalance(contract.CallerAddress, diff.Neg().BigInt())\n\t\tcase diff.IsPositive():\n\t\t\tstateDB.(*statedb.StateDB).AddBalance(contract.CallerAddress, diff.BigInt())\n\t\t}\n",
+  "\t\t_ = balanceBefore\n\t\tstateDB.(*statedb.StateDB).SubBalance(contract.CallerAddress, msg.Amount.Amount.BigInt())\n",
+  "mirror-measures-the-balance", "the mirror is the message amount again: pending rewards paid out by the hook are burned")
+
 json.dump(M, open('/verif/mutants.json', 'w'), indent=1)
 print(len(M), "mutants written")
